@@ -380,6 +380,69 @@ Section Flat.
     - cbn. reflexivity.
   Qed.
 
+  Lemma map_opt_plain f stk ea (l : list enc) :
+    forallb plain l = true -> (fold_right (fun a n => (length a + n)%nat) 0%nat l < f)%nat ->
+    map_opt (expand_recurse f stk ea) l = Some l.
+  Proof.
+    induction l as [|a l IH]; intros Hp Hf; [reflexivity|].
+    cbn in Hp. apply andb_true_iff in Hp. destruct Hp as [Ha Hl]. cbn [fold_right] in Hf.
+    cbn [map_opt]. rewrite (expand_recurse_plain pfnames lib opts a Ha) by lia. rewrite IH by (assumption || lia). reflexivity.
+  Qed.
+
+  (** With a selection (C13): the call is replaced by the rule's result when everything is expanded or the template is
+      selected, and is emitted as it was written otherwise. *)
+  Theorem flat_call_sel stk ea name args :
+    (length stk < 100)%nat -> detect_loop (stk ++ [FTemplate name]) = false ->
+    strip_i (chars name) = chars name -> existsb (N.eqb 58) name = false ->
+    Expand.classify_pf pfnames (Expand.canon_pf pfnames name) = PfNone ->
+    forallb plain args = true ->
+    o_tfn opts = [] -> o_pfn opts = [] ->
+    (forall t, find_tpl lib name = Some t -> flat_body (t_body t) = true) ->
+    exists F, forall fuel, (F <= fuel)%nat ->
+      expand_T fuel stk ea (chars name :: args)
+      = Some (if ea || need_expand lib (o_sel opts) name then result_of lib name args
+              else unexpanded_template (chars name :: args)).
+  Proof.
+    intros Hdepth Hloop.
+    intros Hstrip Hcolon Hpf Hargs Htfn Hpfn Hbody.
+    set (ht := bind_args args 1 []).
+    assert (Hht : values_plain ht = true) by (apply bind_plain; [exact Hargs | reflexivity]).
+    set (bsize := match find_tpl lib name with
+                  | Some t => (size (marked_body (t_body t)) + length (code_subst ht (marked_body (t_body t))))%nat
+                  | None => 0%nat end).
+    exists (length name + fold_right (fun a n => (length a + n)%nat) 0%nat args + length args + bsize + 10)%nat.
+    intros fuel Hf. destruct fuel as [|f]; [lia|].
+    rewrite expand_T_S. replace (Nat.leb 100 (length stk)) with false by (symmetry; apply Nat.leb_gt; exact Hdepth).
+    rewrite (expand_recurse_plain pfnames lib opts (chars name) (plain_chars name)) by (unfold chars; rewrite map_length; lia).
+    cbv beta iota zeta. rewrite Hstrip, codes_chars.
+    rewrite (no_colon_index name 0 Hcolon).
+    rewrite Hpf. rewrite Hcolon.
+    destruct (negb ea && negb (need_expand lib (o_sel opts) name)) eqn:Esel.
+    - (* left alone *)
+      assert (Hno : ea || need_expand lib (o_sel opts) name = false).
+      { destruct ea; [discriminate Esel|]. destruct (need_expand lib (o_sel opts) name); [discriminate Esel | reflexivity]. }
+      rewrite Hno.
+      rewrite map_opt_plain; [reflexivity | cbn [forallb]; rewrite plain_chars; exact Hargs |].
+      cbn [fold_right]. unfold chars. rewrite map_length. lia.
+    - assert (Hyes : ea || need_expand lib (o_sel opts) name = true).
+      { destruct ea; [reflexivity|]. destruct (need_expand lib (o_sel opts) name); [reflexivity | discriminate Esel]. }
+      rewrite Hyes. cbn [negb andb].
+      rewrite Hloop.
+      rewrite (build_args_flat args Hargs) by lia. fold ht.
+      rewrite Htfn, Hpfn. cbn [hook_ret find].
+      unfold result_of. fold ht.
+      destruct (find_tpl lib name) as [t|] eqn:Et.
+      + specialize (Hbody t eq_refl).
+        fold (marked_body (t_body t)).
+        rewrite (expand_args_flat (marked_body (t_body t)) (flat_marked _ Hbody)) by (unfold bsize in Hf; lia).
+        assert (Hp : plain (code_subst ht (marked_body (t_body t))) = true)
+          by (apply subst_plain; [apply plain_drop_last_nl | exact Hht | apply flat_marked; exact Hbody]).
+        rewrite (expand_recurse_plain pfnames lib opts _ Hp) by (unfold bsize in Hf; lia).
+        unfold code_subst. rewrite add_newline_marked.
+        destruct (add_newline (subst drop_last_nl ht (t_body t))); reflexivity.
+      + cbn. reflexivity.
+  Qed.
+
   (* at page level *)
   Theorem flat_call name args :
     strip_i (chars name) = chars name -> existsb (N.eqb 58) name = false ->
@@ -518,6 +581,67 @@ Section Flat.
     destruct Hrec as [F HF]. exists (S F). intros fuel Hf.
     unfold expand_page. cbn [negb]. rewrite (HF fuel) by lia.
     rewrite <- (plain_chars_codes (page_result page)) at 1 by (apply page_result_plain; exact Hpage).
+    rewrite finalize_plain by lia. reflexivity.
+  Qed.
+
+  (** Selective expansion of a page of text and flat calls (C13): with [pre_expand] the selected calls are replaced by
+      the rule's result and every other call comes back as it was written. *)
+  Notation page_result_sel := (FlatCall.page_result_sel lib (o_sel opts)).
+
+  Lemma plain_join_i l : forallb plain l = true -> plain (join_i vbar l) = true.
+  Proof.
+    induction l as [|a l IH]; intros H; [reflexivity|]. cbn in H. apply andb_true_iff in H. destruct H as [Ha Hl].
+    destruct l as [|b l]; [exact Ha|]. change (join_i vbar (a :: b :: l)) with (a ++ vbar ++ join_i vbar (b :: l)).
+    rewrite !plain_app, Ha, (IH Hl). reflexivity.
+  Qed.
+
+  Lemma plain_unexpanded l : forallb plain l = true -> plain (unexpanded_template l) = true.
+  Proof. intros H. unfold unexpanded_template. rewrite !plain_app, !plain_chars, (plain_join_i l H). reflexivity. Qed.
+
+  Lemma page_result_sel_plain pre page : forallb flat_item page = true -> plain (page_result_sel pre page) = true.
+  Proof.
+    induction page as [|i page IH]; intros H; [reflexivity|]. cbn in H. apply andb_true_iff in H. destruct H as [Hi Hp].
+    unfold FlatCall.page_result_sel. cbn [flat_map]. rewrite plain_app. fold (page_result_sel pre page). rewrite (IH Hp), andb_true_r.
+    destruct i as [c|[|n args]| | | |]; try discriminate Hi; [reflexivity|].
+    apply andb_true_iff in Hi. destruct Hi as [Hn Hok].
+    destruct (flat_ok_premises _ _ Hok) as (_ & _ & _ & H4 & H5).
+    destruct (negb pre || need_expand lib (o_sel opts) (codes n)); [apply result_plain; assumption|].
+    apply plain_unexpanded. cbn [forallb]. rewrite Hn. exact H4.
+  Qed.
+
+  Theorem flat_pages_sel nwmap pre page :
+    forallb flat_item page = true -> o_tfn opts = [] -> o_pfn opts = [] ->
+    exists F, forall fuel, (F <= fuel)%nat ->
+      expand_page pfnames nwmap lib opts pre fuel page = Some (codes (page_result_sel pre page)).
+  Proof.
+    intros Hpage Htfn Hpfn.
+    assert (Hrec : exists F, forall fuel, (F <= fuel)%nat ->
+              expand_recurse fuel [FTitle] (negb pre) page = Some (page_result_sel pre page)).
+    { induction page as [|i page IH].
+      - exists 1%nat. intros fuel Hf. destruct fuel; [lia | reflexivity].
+      - cbn in Hpage. apply andb_true_iff in Hpage. destruct Hpage as [Hi Hp].
+        destruct (IH Hp) as [F HF].
+        destruct i as [c|[|n args]| | | |]; try discriminate Hi.
+        + exists (S F). intros fuel Hf. destruct fuel as [|f]; [lia|].
+          cbn [Expand.expand_recurse]. rewrite (HF f) by lia. reflexivity.
+        + apply andb_true_iff in Hi. destruct Hi as [Hn Hok].
+          destruct (flat_ok_premises _ _ Hok) as (H1 & H2 & H3 & H4 & H5).
+          assert (Hd : (length [FTitle] < 100)%nat) by (cbn; lia).
+          destruct (flat_call_sel [FTitle] (negb pre) (codes n) args Hd eq_refl H1 H2 H3 H4 Htfn Hpfn H5) as [G HG].
+          exists (S (F + G)). intros fuel Hf. destruct fuel as [|f]; [lia|].
+          assert (E : n = chars (codes n)) by (symmetry; apply plain_chars_codes; exact Hn).
+          remember (codes n) as name eqn:En. rewrite E. clear E.
+          change (expand_recurse (S f) [FTitle] (negb pre) (T (chars name :: args) :: page))
+            with (match expand_recurse f [FTitle] (negb pre) page with
+                  | None => None
+                  | Some rest' => match expand_T f [FTitle] (negb pre) (chars name :: args) with
+                                  | Some t => Some (t ++ rest') | None => None end
+                  end).
+          rewrite (HF f) by lia. rewrite (HG f) by lia.
+          unfold FlatCall.page_result_sel. cbn [flat_map]. rewrite codes_chars. reflexivity. }
+    destruct Hrec as [F HF]. exists (S F). intros fuel Hf.
+    unfold expand_page. rewrite (HF fuel) by lia.
+    rewrite <- (plain_chars_codes (page_result_sel pre page)) at 1 by (apply page_result_sel_plain; exact Hpage).
     rewrite finalize_plain by lia. reflexivity.
   Qed.
 End Flat.
